@@ -11,6 +11,7 @@ require (
 	github.com/aws/smithy-go v1.27.7
 	github.com/google/tink/go v1.7.0
 	github.com/jdillenkofer/pithos v0.0.0
+	github.com/oklog/ulid/v2 v2.1.2
 	github.com/prometheus/client_golang v1.24.1
 	go.opentelemetry.io/otel/trace v1.45.0
 )
@@ -103,7 +104,6 @@ require (
 	github.com/moby/sys/userns v0.1.0 // indirect
 	github.com/moby/term v0.5.2 // indirect
 	github.com/munnerz/goautoneg v0.0.0-20191010083416-a7dc8b61c822 // indirect
-	github.com/oklog/ulid/v2 v2.1.2 // indirect
 	github.com/opencontainers/go-digest v1.0.0 // indirect
 	github.com/opencontainers/image-spec v1.1.1 // indirect
 	github.com/pierrec/lz4/v4 v4.1.16 // indirect
